@@ -288,6 +288,11 @@ def run_scenario(sc):
         env.update(sim.v["sys"].inst)
         return env
 
+    for q in sc.get("setup_tool", []):
+        f = sim.raw_function(sim.v["sys"], q)
+        ptera.tooled.inplace(f)
+        sim.orig_code[q] = f.__code__
+
     # ---- sequential model of each thread's own script (M-sel over the traced twin)
     expected = []
     for t, th in enumerate(sc["threads"]):
